@@ -24,7 +24,7 @@ GROUPS = [
     ("unary", ["Scale", "Apply", "CloneFrom", "Copy", "Pow"], 4, 4),
     ("stack", ["Stack", "Augment"], 12, 3),
     ("kron", ["Kronecker"], 8, 3),
-    ("rank", ["RankOne", "Outer"], 4, 3),
+    ("rank", ["RankOne", "Outer"], 8, 3),
     ("product", ["Product"], 32, 3),
     ("vec", ["MulVec", "AddVec", "SubVec", "MulElemVec", "AddScaledVec", "ScaleVec", "CopyVec", "CloneFromVec"], 4, 4),
     ("sym", ["AddSym", "CopySym", "ScaleSym", "SymRankOne", "RankTwo", "SymRankK", "SymOuterK"], 4, 3),
